@@ -1199,8 +1199,10 @@ package ro
 //@   binds factory destination ctx
 //@   maypanic
 //@   track callfn.factory destination.*
-//@   ensures [value-then-completion|C04] !panics && res(callfn.factory, 1) == nil ==> trace(callfn.factory(), destination.NextWithContext(ctx, res(callfn.factory, 0)), destination.CompleteWithContext(ctx))
-//@   ensures [error-ends-the-stream|C04,C07] !panics && res(callfn.factory, 1) != nil ==> trace(callfn.factory(), destination.ErrorWithContext(ctx, res(callfn.factory, 1)))
+//@   ensures [value-then-completion|C04] !panicked(factory) && res(callfn.factory, 1) == nil ==> trace(callfn.factory(), destination.NextWithContext(ctx, res(callfn.factory, 0)), destination.CompleteWithContext(ctx))
+//@   ensures [error-ends-the-stream|C04,C07] !panicked(factory) && res(callfn.factory, 1) != nil ==> trace(callfn.factory(), destination.ErrorWithContext(ctx, res(callfn.factory, 1)))
+//@   panicforks
+//@   ensures [a-panicking-factory-reaches-the-subscriber-as-an-error|C07] panicked(factory) ==> !panics && trace(callfn.factory(), destination.ErrorWithContext(ctx, _))
 
 //@ operator BufferWithTimeOrCount
 //@   props C04 C16 C05
